@@ -17,6 +17,7 @@ ValidMut (oracle): valid instance and one mutation per rule class (also must / w
     out) through: XML, JSON, shuffled siblings, parse with validation, parse-only + lyd_validate_module, and
     lyd_new_path construction + validation: every route must give the verdict and class expected by construction."""
 import os
+import re
 
 import treeenc
 import validenc
@@ -594,6 +595,8 @@ class ValidModel(Comp):
                 return None
             if pa[0] == pb[0]:
                 # the model of the code agrees with the code: the disagreement is with the RFC verdict
+                if pb[0] == "dupcase" and pa[1] == "1" and k == 0 and re.search(r":i:dn", impl_out.split(" | ")[2]):
+                    return ("empty-np-container-dupcase", "an explicit empty non-presence container counted as data of its case")
                 if pb[0] == "nouniq" and kud and (pa[1] == "1" or "rfc-before=1" in pa[1]):
                     return ("unique-default-not-in-use", "rejected with data-not-unique although the default value of the unique "
                                                          "leaf is not in use in these entries")
